@@ -335,7 +335,8 @@ async fn run_case(cx: &Ctx<'_>, seed: u64, idx: u64, thorough: bool, selftest: b
     let mut h = match Hist::create(&mut rng, cfg.clone(), &format!("c15-{seed}-{idx}"), (idx % 4000) as usize + 1).await {
         Ok(h) => h,
         Err(e) => {
-            cx.report.harness_error(&format!("case {idx}: create failed: {}", e.brief()));
+            cx.report.rejected();
+            cx.diag.add(&format!("create:{}", e.brief().chars().take(160).collect::<String>()), 1);
             return (0, 0);
         }
     };
@@ -363,7 +364,7 @@ async fn run_case(cx: &Ctx<'_>, seed: u64, idx: u64, thorough: bool, selftest: b
         match out {
             Outcome::Applied => kinds.push(op.kind()),
             Outcome::Rejected(f) | Outcome::Failed(f) => {
-                cx.diag.add(&format!("{}:{}", op.kind(), f.brief().chars().take(100).collect::<String>()), 1)
+                cx.diag.add(&format!("{}:{}", op.kind(), f.key()), 1)
             }
             _ => {}
         }
@@ -407,6 +408,7 @@ async fn run_case(cx: &Ctx<'_>, seed: u64, idx: u64, thorough: bool, selftest: b
         );
         return (0, 0);
     }
+    harvest(&obs, &mut seen_rowids, &mut seen_addrs);
     let dead_rowids: Vec<u64> = seen_rowids.iter().filter(|x| !by_rowid.contains_key(x)).copied().collect();
     let dead_addrs: Vec<u64> = seen_addrs.iter().filter(|x| !by_addr.contains_key(x)).copied().collect();
     let max_frag = ds.get_fragments().iter().map(|f| f.id() as u64).max().unwrap_or(0);
@@ -426,7 +428,11 @@ async fn run_case(cx: &Ctx<'_>, seed: u64, idx: u64, thorough: bool, selftest: b
             Api::TakeScan,
         ]);
         let hostile = round >= 2 && rng.chance(1, 3) && api != Api::TakeScan;
-        let cols = gen_projection(&mut rng, &obs, api != Api::TakeScan);
+        let mut cols = gen_projection(&mut rng, &obs, api != Api::TakeScan);
+        if api == Api::TakeAddrsWithAddr {
+            // asking for the address column twice is a usage error, not the subject here
+            cols.retain(|c| c != ROWADDR);
+        }
         // ---- keys and what they resolve to
         let mut keys: Vec<u64> = vec![];
         let mut expected: Vec<Option<&ORow>> = vec![];
@@ -467,7 +473,8 @@ async fn run_case(cx: &Ctx<'_>, seed: u64, idx: u64, thorough: bool, selftest: b
                             if !dead_rowids.is_empty() && rng.chance(2, 3) {
                                 *rng.pick(&dead_rowids)
                             } else if stable {
-                                seen_rowids.iter().max().copied().unwrap_or(0) + 1 + rng.below(100)
+                                // never assigned: beyond the manifest's next_row_id
+                                ds.manifest().next_row_id + rng.below(100)
                             } else {
                                 ((max_frag + 1 + rng.below(3)) << 32) | rng.below(4)
                             }
